@@ -24,6 +24,8 @@ type BuilderCase struct {
 	// reported from and the relative addresses, in order
 	From string   `json:"from,omitempty"`
 	Rels []string `json:"rels,omitempty"`
+	// the artifact added is the file that declares the dependencies (".../deps-f0.json"), not its directory
+	FromFile bool `json:"from_file,omitempty"`
 }
 
 var subBuilderJoin = ev.Register("builderjoin", checkBuilderJoin)
@@ -118,6 +120,10 @@ func checkBuilderRelative(c BuilderCase) error {
 	if c.From != "" {
 		base.Segs = strings.Split(c.From, "/")
 	}
+	if c.FromFile {
+		// relative addresses are resolved against the address that was analysed, whatever it names
+		base.Segs = append(base.Segs, "deps-f0.json")
+	}
 	wantErr := false
 	var wantKeys []string
 	for _, rel := range c.Rels {
@@ -125,6 +131,11 @@ func checkBuilderRelative(c BuilderCase) error {
 		if !ok {
 			wantErr = true
 			continue
+		}
+		if c.FromFile && strings.Join(names, "/") == c.From {
+			// leads to the directory whose own analysis reads the same declarations again, from another base
+			ev.Label("resolves-to-the-declaring-directory")
+			return nil
 		}
 		wantKeys = append(wantKeys, fmt.Sprintf("real//%s#f0", strings.Join(names, "/")))
 	}
@@ -197,7 +208,15 @@ func TestBuilderJoin(t *testing.T) {
 			if from != "" {
 				call += "//" + from
 			}
-			return BuilderCase{From: from, Rels: rels, World: world.World{
+			fromFile := rapid.IntRange(0, 3).Draw(t, "fromfile") == 0
+			if fromFile {
+				if from != "" {
+					call += "/deps-f0.json"
+				} else {
+					call += "//deps-f0.json"
+				}
+			}
+			return BuilderCase{From: from, Rels: rels, FromFile: fromFile, World: world.World{
 				Remotes: []world.RemotePkg{{Addr: addr, Content: "real", Modules: []world.Module{m}}},
 				Script:  []world.AddCall{{Kind: "remote", Addr: call}}}}
 		}
